@@ -3,6 +3,7 @@ Driver, part 2: re-executes every recorded operation on the model and compares.
 Not part of any proof; it calls the very definitions the theorems are about.
 -/
 import Anytype.Driver.Wire
+import Anytype.Model.Slices
 namespace Anytype.Driver
 open Anytype Std
 
@@ -13,6 +14,12 @@ structure DS where
   last : HashMap Nat (List Tok) := {}
   /-- differences that do not desynchronise the case (both sides panic, only the kind differs): reported, the case goes on -/
   notes : List String := []
+  /-- the slice-level machine of the `sl` records (stratum "slices"): arrays and slice headers of the lists of the case -/
+  slMem : Slices.Mem Int := []
+  slCells : List Slices.Slice := []
+  /-- observed array id ↔ model array -/
+  slO2M : HashMap Nat Nat := {}
+  slM2O : HashMap Nat Nat := {}
   deriving Inhabited
 
 abbrev M := StateT DS (Except String)
